@@ -15,6 +15,11 @@ CLAIMED = {
    text='Proof. Over any linearly ordered field: for non-negative fractions summing to 1 and 0<T<1, T2t returns the unique segment whose half-open cumulative interval contains T, that segment has positive length (zero-length non-leading segments are never selected), 0<t<=1, t2T maps (k,t) back to T exactly, Path.point evaluates exactly the (k,t) of T2t, the shortcuts at 0 and 1 are the first/last segment; BugException is unreachable. Law-free (decidable equality only): iscontinuous is the chain of end=start coincidences, continuous_subpaths concatenates back to the path and every piece is continuous. The model is run against the real Path methods on exact Fractions (stub segments) and real Lines every run; a float sampler covers rounding, all segment kinds and item-assignment histories.',
    note='Trusted: Lean kernel + standard axioms; the correspondence runner; segment lengths are inputs (C06). Not proved: float rounding of the partial sums (T within an ulp of 1 can fall through); maximality of the subpaths is checked by correspondence and sampling, the Lean theorem covers concatenation and continuity of the pieces.',
    ref='7 C05'),
+ 'C09': dict(
+   technique='Lean 4 proof: ring/field identities on reversed/split/cropped traced from path.py (regenerated each run); hand model of Path.cropped index logic tied by exact Fraction correspondence, defect witnesses by kernel evaluation',
+   text='Proof. For Line/Quadratic/Cubic: reversed().point(u)=point(1-u) and reversed control points; split(t) pieces are the restrictions to [0,t],[t,1] and meet at point(t); cropped(0,t1), cropped(t0,1) and interior cropped(t0,t1) are point(t0+u(t1-t0)) (field identity, 1-t0 != 0), all as polynomial identities over any field of characteristic 0 on definitions regenerated from the running code. Path.reversed: order/involution/length lemmas. Path.cropped: hand model (T2t lookups, isclose snaps, three assembly branches, wrap-around) executed against the real method on stub segments with exact Fraction lengths (incl. equal segments, joints, T within 1e-10 of joints); the pre-repair behaviour for T1=0 is refuted by a kernel-checked witness. Sampler on real segments/paths of all four kinds incl. arcs.',
+   note='Trusted: kernel + standard axioms; translator; correspondence runner. Not yet a theorem: the general statement that the pieces of Path.cropped cover exactly length(T0,T1) (checked by correspondence + sampler; witness theorems only). Arc.reversed/cropped rest on C04 and the sampler.',
+   ref='7 C09'),
  'C19': dict(
    technique='Lean 4 proof: per-degree ring identities on definitions regenerated from bezier.py by a tracing translator; list-induction theorems on a hand model of the polyroots filter tied by exact (rational) correspondence',
    text='Proof. For degrees 0..8 the traced bezier_point / bezier2polynomial / polynomial2bezier / split_bezier / halve_bezier are proved equal to the Bernstein form over every field of characteristic 0 (369 theorems, regenerated definitions, `ring`). The root filter after np.roots is proved to keep every isolated candidate exactly once and to return a pairwise non-close sublist, for all lists and all closeness relations; the model is executed against the real polyroots01/rational_limit on exact rationals every run. A float sampler on the real code backs the clauses proof cannot reach (rounding, np.roots).',
